@@ -220,23 +220,23 @@ Definition allowed (q : request) : bool :=
   valid_repository (q_repo q) &&
   match q_m q, q_ep q with
   | GET, EBlob d =>                     (* end-2, optional Range *)
-      valid_digest d && is_none (q_digest q) && is_none (q_mount q) && is_none (q_ctype q)
+      valid_digest d && is_none (q_digest q) && is_none (q_mount q) && negb (nonempty (q_ctype q))
       && str_eqb (q_body q) []
       && match q_range q with Some (a, bb) => a <=? bb | None => true end
   | HEAD, EBlob d | DELETE, EBlob d =>  (* end-2, end-10 *)
       valid_digest d && is_none (q_digest q) && is_none (q_mount q) && is_none (q_range q)
-      && is_none (q_ctype q) && str_eqb (q_body q) []
+      && negb (nonempty (q_ctype q)) && str_eqb (q_body q) []
   | GET, EManifest rf | HEAD, EManifest rf =>   (* end-3 *)
       valid_ref rf && is_none (q_digest q) && is_none (q_mount q) && is_none (q_range q)
-      && is_none (q_ctype q) && str_eqb (q_body q) []
+      && negb (nonempty (q_ctype q)) && str_eqb (q_body q) []
   | DELETE, EManifest rf =>             (* end-9 *)
       valid_ref rf && is_none (q_digest q) && is_none (q_mount q) && is_none (q_range q)
-      && is_none (q_ctype q) && str_eqb (q_body q) []
+      && negb (nonempty (q_ctype q)) && str_eqb (q_body q) []
   | PUT, EManifest rf =>                (* end-7 *)
       valid_ref rf && is_none (q_digest q) && is_none (q_mount q) && is_none (q_range q)
       && nonempty (q_ctype q) && is_some (q_clen q)
   | POST, EUploads =>                   (* end-4a, end-11 *)
-      is_none (q_digest q) && is_none (q_range q) && is_none (q_ctype q) && str_eqb (q_body q) []
+      is_none (q_digest q) && is_none (q_range q) && negb (nonempty (q_ctype q)) && str_eqb (q_body q) []
       && match q_mount q with
          | Some (d, from) => valid_digest d && valid_repository from
          | None => true
@@ -248,7 +248,7 @@ Definition allowed (q : request) : bool :=
       && is_some (q_clen q)
   | GET, EReferrers d =>                (* end-12a *)
       valid_digest d && is_none (q_digest q) && is_none (q_mount q) && is_none (q_range q)
-      && is_none (q_ctype q) && str_eqb (q_body q) []
+      && negb (nonempty (q_ctype q)) && str_eqb (q_body q) []
   | _, _ => false
   end.
 
